@@ -20,12 +20,22 @@ class Deadlock(Exception):
     """The loop would block forever (nothing ready, nothing scheduled)."""
 
 
+class Overrun(Exception):
+    """Logical-step watchdog: too many loop iterations in a phase that should be quiet."""
+
+
 class _Selector:
     def __init__(self):
         self._real = selectors.DefaultSelector()
         self._loop = None
 
     def select(self, timeout=None):
+        loop = self._loop
+        if loop.select_budget is not None:
+            loop.select_budget -= 1
+            if loop.select_budget < 0:
+                loop.select_budget = None
+                raise Overrun("too many event loop iterations")
         events = self._real.select(0)
         if events or (timeout is not None and timeout <= 0):
             return events
@@ -66,6 +76,7 @@ class VirtualLoop(asyncio.SelectorEventLoop):
         self.t0 = float(start)
         self.latency = None         # callable() -> extra seconds added to every time jump
         self.real_block = 0.0       # seconds of real blocking allowed (executor threads)
+        self.select_budget = None   # remaining loop iterations (None = unlimited)
         self.track = track
         self.handles = []           # every TimerHandle created (when tracking)
         self.tasks = []             # every Task created
@@ -149,7 +160,7 @@ class VirtualLoop(asyncio.SelectorEventLoop):
         return task.get_name().startswith('edzed:')
 
 
-def run(main, *, start=1000.0, drain=0.0, track=True, setup=None):
+def run(main, *, start=1000.0, drain=0.0, track=True, setup=None, drain_budget=50000):
     """
     Run coroutine function main(loop) on a fresh VirtualLoop.
 
@@ -175,12 +186,15 @@ def run(main, *, start=1000.0, drain=0.0, track=True, setup=None):
             'vt': loop._vt,
         }
         if drain > 0 and not isinstance(exc, Deadlock):
+            loop.select_budget = drain_budget
             try:
                 loop.run_until_complete(asyncio.sleep(drain))
             except BaseException as err:
                 if isinstance(err, (KeyboardInterrupt, SystemExit)):
                     raise
                 loop.drain_exc = err
+            finally:
+                loop.select_budget = None
     finally:
         try:
             left = [t for t in asyncio.all_tasks(loop) if not t.done()]
